@@ -188,3 +188,20 @@ Example C16_observation_fitness_attribute :
   (exists h', pickle_roundtrip ex_heap_fitattr (Ref 1) = Some (h', Ref 3) /\
               nth_error h' 3 = Some (mkobj KFit (Ref 2) [Atom 100004] [(13, Atom 5)])).
 Proof. vm_compute. repeat split; eexists; repeat split. Qed.
+
+(* non-vacuity on a cyclic graph: a tree-based individual listed among its own relatives (family = [ind]);
+   the clone's list holds the clone *)
+Definition ex_cyclic : heap :=
+  [ mkobj KClass (Atom 1) [Atom 7] [(51, Atom 7000)];
+    mkobj KClass (Atom 2) [Atom 6] [(0, Ref 0)];
+    mkobj KFit (Ref 0) [Atom 100012] [];
+    mkobj KPyList (BType 0) [Ref 4] [];
+    mkobj KTree (Ref 1) [Atom 6000; Atom 6002; Atom 6003] [(0, Ref 2); (12, Ref 3)] ].
+
+Example C16_nonvacuous_cyclic :
+  deep_okb ex_cyclic = true /\
+  (exists h', deepcopy ex_cyclic (Ref 4) = Some (h', Ref 5) /\
+     nth_error h' 5 = Some (mkobj KTree (Ref 1) [Atom 6000; Atom 6002; Atom 6003] [(0, Ref 6); (12, Ref 7)]) /\
+     nth_error h' 7 = Some (mkobj KPyList (BType 0) [Ref 5] [])) /\
+  (exists h', pickle_fresh ex_cyclic (Ref 4) = Some (h', Ref 2) /\ length h' = 5).
+Proof. vm_compute. repeat split; eexists; repeat split. Qed.
